@@ -8,7 +8,9 @@ import (
 	"encoding/binary"
 	"fmt"
 	"math/rand"
+	"runtime/debug"
 	"sort"
+	"strings"
 	"testing"
 	"time"
 
@@ -173,7 +175,7 @@ func (w *World) Deliver(dt time.Duration, raw [][]byte) (res BlockRes) {
 		defer func() {
 			if r := recover(); r != nil {
 				res.Panicked = true
-				res.PanicText = fmt.Sprint(r)
+				res.PanicText = fmt.Sprint(r) + panicSite()
 			}
 		}()
 		fb, err := w.App.FinalizeBlock(&abci.RequestFinalizeBlock{
@@ -219,4 +221,30 @@ func (w *World) Name(addr string) string {
 		return n
 	}
 	return addr
+}
+
+// panicSite: the innermost frames of the panicking goroutine that lie in the repository's own modules (x/... or app/...), as
+// " @ x/mod/keeper/file.go:123 < x/..." with the checkout prefix cut off, so that a block panic names its site.
+func panicSite() string {
+	var sites []string
+	for _, ln := range strings.Split(string(debug.Stack()), "\n") {
+		ln = strings.TrimSpace(ln)
+		for _, mark := range []string{"/x/", "/app/"} {
+			if i := strings.Index(ln, mark); i >= 0 && strings.Contains(ln, ".go:") && !strings.Contains(ln, "/pkg/mod/") && !strings.Contains(ln, "/harness/") {
+				s := ln[i+1:]
+				if j := strings.Index(s, " "); j >= 0 {
+					s = s[:j]
+				}
+				sites = append(sites, s)
+				break
+			}
+		}
+		if len(sites) >= 3 {
+			break
+		}
+	}
+	if len(sites) == 0 {
+		return ""
+	}
+	return " @ " + strings.Join(sites, " < ")
 }
